@@ -326,7 +326,8 @@ Theorem C01_translated_replicate_z e c : DerivedGen.g_replicate e c = mk_replica
 Proof. exact (GenEqDerived.gen_replicate_eq e c). Qed.
 Print Assumptions C01_translated_replicate_z.
 
-(* FINDING (reported): bit_select / word_select document `TypeError if offset is signed`, but a CONSTANT signed offset
+(* OBSERVATION (not a verdict of C01, which speaks about the expressions that were built): bit_select / word_select document
+   `TypeError if offset is signed`, but a CONSTANT signed offset
    is folded through Python's negative indexing before any check: value.bit_select(Const(-2, signed(3)), 1) is accepted
    and reads bit len-2.  The statement "a signed offset is rejected" is false of the source (g_bit_select is regenerated
    from hdl/_ast.py and equals mk_bit_select); C01_bit_select_spec therefore keeps its unsigned-offset hypothesis. *)
